@@ -10,7 +10,7 @@
    (map_); "index and ordered child list agree" is the statement that every lookup
    by name answers from the ordered child list as defined here - checked after
    every call, in particular after deleteChildren and after copying subtrees.     *)
-EXTENDS FlatTree, TLC, Json
+EXTENDS TreeQuery, TLC, Json
 
 CONSTANTS Names, Vals, AddParents, TreeKeys, SetKeys, Keys, Filters, DelParents, CopySrc, CopyDst,
           AttrNodes, AttrKeys, MaxNodes, Depth, Emit
@@ -19,24 +19,6 @@ vars == <<t, h>>
 
 Nd(d, n, v) == [d |-> d, n |-> n, v |-> v, at |-> {}]
 Root == << Nd(0, "", "") >>
-
-\* ---- lookup ------------------------------------------------------------------
-RECURSIVE Walk(_, _, _)
-Walk(tt, i, names) == IF names = <<>> THEN i
-                      ELSE LET k == LastKidNamed(tt, i, Head(names)) IN IF k = 0 THEN 0 ELSE Walk(tt, k, Tail(names))
-Get(tt, key) == Walk(tt, 1, Tokens(key, {"."}))             \* 0: "property not found"
-
-\* wildcard match, * any run (also empty), ? one character
-RECURSIVE WM(_, _)
-WM(pat, s) == IF pat = "" THEN s = ""
-              ELSE IF Ch(pat, 1) = "*" THEN WM(Rest(pat, 2), s) \/ (s # "" /\ WM(pat, Rest(s, 2)))
-              ELSE s # "" /\ (Ch(pat, 1) = "?" \/ Ch(pat, 1) = Ch(s, 1)) /\ WM(Rest(pat, 2), Rest(s, 2))
-RECURSIVE SelStep(_, _, _)
-SelStep(tt, sel, pats) ==
-  IF pats = <<>> THEN sel
-  ELSE SelStep(tt, Flatten([x \in 1..Len(sel) |-> LET ks == Kids(tt, sel[x]) IN
-                               SelectSeq(ks, LAMBDA j : WM(Head(pats), tt[j].n))]), Tail(pats))
-Select(tt, filter) == LET pats == Tokens(filter, {"."}) IN IF pats = <<>> THEN <<>> ELSE SelStep(tt, <<1>>, pats)
 
 \* ---- mutators (return <<new tree, returned node or 0>>) ---------------------------------
 AddAt(tt, i, name, val) == << InsertAfter(tt, SubEnd(tt, i), << Nd(tt[i].d + 1, name, val) >>), SubEnd(tt, i) + 1 >>
@@ -54,7 +36,7 @@ CopyTo(tt, src, dst) == << InsertAfter(tt, SubEnd(tt, dst), Rebase(Sub(tt, src),
 SetAttr(at, k, v) == {p \in at : p[1] # k} \cup {<<k, v>>}
 
 \* ---- observation ---------------------------------------------------------------
-TreeOut(tt) == [j \in 1..Len(tt) |-> <<tt[j].d, tt[j].n, tt[j].v, tt[j].at>>]
+TreeOut(tt) == [j \in 1..Len(tt) |-> <<tt[j].d, tt[j].n, tt[j].v, tt[j].at, PathOf(tt, j)>>]
 Obs(tt) == [tree |-> TreeOut(tt),
             get |-> [k \in Keys |-> Get(tt, k)],
             sel |-> [f \in Filters |-> Select(tt, f)]]
